@@ -41,3 +41,50 @@ Definition space_average_list (qd : ptable) (N : nat) (outs : list dual) : dual 
 Definition unbiased_okb (tol : Q) (N : nat) (pd qd : ptable) (f : list dual) (outs : list dual) : bool :=
   Nat.eqb (length outs) (length (tuples (length qd) N)) &&
   dclose tol (space_average_list qd N outs) (exact pd f).
+
+(* ------------------------------------------------------------------------------------------ *)
+(* fixed-cardinality sampling and support enumeration                                           *)
+(* ------------------------------------------------------------------------------------------ *)
+Local Open Scope Z_scope.
+
+Definition zsum_s (l : list Z) : Z := fold_right Z.add 0 l.
+Definition is_bit (v : Z) : bool := (v =? 0) || (v =? 1).
+
+(* "fixed-cardinality sampling always returns the requested number of ones inside the permitted
+    positions": a vector of [out] bits, [given] ones among the first [total], zeros after *)
+Definition srswor_ok (total given : Z) (out : nat) (bits : list Z) : Prop :=
+  length bits = out /\ Forall (fun v => v = 0 \/ v = 1) bits /\
+  zsum_s (firstn (Z.to_nat total) bits) = given /\
+  Forall (fun v => v = 0) (skipn (Z.to_nat total) bits).
+
+Definition srswor_okb (total given : Z) (out : nat) (bits : list Z) : bool :=
+  Nat.eqb (length bits) out && forallb is_bit bits &&
+  (zsum_s (firstn (Z.to_nat total) bits) =? given) &&
+  forallb (fun v => v =? 0) (skipn (Z.to_nat total) bits).
+
+(* Pascal's triangle, the reference binomial coefficient *)
+Fixpoint choose (n k : nat) : Z :=
+  match n, k with
+  | _, O => 1
+  | O, S _ => 0
+  | S n', S k' => choose n' k' + choose n' (S k')
+  end.
+
+Definition row_eqb (a b : list Z) : bool :=
+  Nat.eqb (length a) (length b) && forallb (fun xy => fst xy =? snd xy) (combine a b).
+Fixpoint nodup_rows (l : list (list Z)) : bool :=
+  match l with [] => true | r :: t => negb (existsb (row_eqb r) t) && nodup_rows t end.
+
+(* an enumeration of all sequences of [len] symbols below [V]: right count, right shape, in range,
+   no repetition (hence, by counting, complete) *)
+Definition enum_vocab_okb (len V : Z) (rows : list (list Z)) : bool :=
+  (Z.of_nat (length rows) =? V ^ len) &&
+  forallb (fun r => (Z.of_nat (length r) =? len) && forallb (fun v => (0 <=? v) && (v <? V)) r) rows &&
+  nodup_rows rows.
+
+(* an enumeration of all bit vectors of width [width] with [cnt] ones among the first [len] positions
+   and zeros after: right count (Pascal), right shape, no repetition *)
+Definition enum_card_okb (len cnt : Z) (width : nat) (rows : list (list Z)) : bool :=
+  (Z.of_nat (length rows) =? choose (Z.to_nat len) (Z.to_nat cnt)) &&
+  forallb (fun r => srswor_okb len cnt width r) rows &&
+  nodup_rows rows.
